@@ -452,3 +452,5 @@ _quick("C04", "C04_afterleave", "a shared hold (symbolic Count) and one queued r
 CHECKS["C14"]["harnesses"].append(dict(pkg="protocol", name="C14_textunits", bound="the time options of the Redis-style text commands (EX, PX, TX, PTX) with a number of 1..9 symbolic decimal digits through ConvertArgs2Flag: whatever unit the converter picks (ms / s / min), the duration the 16-bit field then stands for is not shorter than the written one and exceeds it by less than one unit; beyond 65535 minutes: rejected or saturated", flags=["-witness", "4", "-solver", "cvc5-int"], reach=["end", "beyond-field"]))
 
 CHECKS["C13"]["harnesses"].append(dict(pkg="protocol", name="C14_idnorm", bound="(also under C14) key / id arguments of text commands: strings of every length 0..64, all byte values, through ConvertArgId2LockId and ConvertString2LockKey: no crash (every run-time check of the converters, encoding/hex included, is an obligation)", flags=["-witness", "1"], reach=["end"]))
+
+_quick("C11", "C11_interleaved", "a counter key of capacity 5: holder A set it with INCR a; B goes pending with the require-ack flag and INCR b; A updates its hold with INCR c (applied, shown a+b); B's acknowledgement fails: the counter must be a+c for all 64-bit a, b, c (only the failed lock's own change is undone)", ["-witness", "1"], reach=[])
